@@ -531,6 +531,9 @@ func Classify(err error) string {
 		return "ok"
 	}
 	switch {
+	case AsEither[godi.DisposalError](err):
+		// first: what a failing Close method returned may itself wrap one of godi's sentinels
+		return "disposal"
 	case errors.Is(err, godi.ErrScopeDisposed):
 		return "scope-disposed"
 	case errors.Is(err, godi.ErrProviderDisposed):
